@@ -32,6 +32,11 @@ impl VisitableMut for Generics {
         visit.visit_generics_mut(self);
     }
 }
+impl VisitableMut for syn::WherePredicate {
+    fn visit_mut(&mut self, visit: &mut impl VisitMut) {
+        visit.visit_where_predicate_mut(self);
+    }
+}
 pub fn expand_self<T: VisitableMut + Clone>(input: &T, to: &Type) -> T {
     struct ExpandSelfVisitor<'a> {
         to: &'a Type,
